@@ -39,6 +39,7 @@ import zlib
 from bounded._api import Bounded, REPLAY_HEADER
 
 PNAME = 'x'
+INCLUDE_SETATTR_ROUTE = True     # set False to drop the `Cls.x = Parameter(...)` route
 
 # ---------------------------------------------------------------------------------------------
 # model of the Parameter types used (from the documented signatures, not from the code paths
@@ -371,6 +372,14 @@ class Counter:
 def check_class(cls, pobj, exc, decl, anc, route, cnt):
     """Evaluate the C11 clauses for one created (or failed) class.  -> (violations, merged)"""
     tname, spec = decl
+    if route == 'setattr':
+        # `Cls.x = Parameter(...)` on an existing class: a route the statement does not name
+        # explicitly (it names class creation and add_parameter); kept under its own clause.
+        cnt.hit('C11/setattr-route/parameter-bound')
+        if pobj.name != PNAME:
+            return [('C11/setattr-route/name-unbound',
+                     'after setattr(cls, %r, Parameter) the Parameter has name %r; unspecified slots '
+                     'read as type defaults instead of inherited values' % (PNAME, pobj.name))], None
     m = merge(tname, spec, anc)
     exp = expected_failure(tname, m, anc)
     vios = []
@@ -481,6 +490,19 @@ def witness_text(shape, decls, route, clause, at):
         parts.append('%s=%s' % (cname, decl_text(d)))
     parts.append('at=%s' % at)
     return ' '.join(parts)
+
+
+def witness_class(clause, shape, decls, route):
+    """One reported witness per (clause, class): the smallest minimised case stands for the rest."""
+    fam = next(FAMILY_OF[d[0]] for d in decls if d is not None)
+    if clause.startswith('C11/setattr-route/'):
+        return ''
+    if clause.startswith('C11/invariant/failed-add'):
+        return route
+    if clause.startswith('C11/create/'):
+        types = [d[0] for d in decls if d is not None]
+        return '%s|%s' % (fam, 'typechange' if len(set(types)) > 1 else 'sametype')
+    return fam
 
 
 def _shape_reductions(shape, decls):
@@ -594,7 +616,7 @@ def replay_script(shape, decls, route, clause, at, witness):
             "got = dict(got) if isinstance(got, dict) else (list(got) if isinstance(got, list) else got)",
             "want = %r   # value held by the nearest class in the MRO declaring it (else type default)" % (m[slot],),
             "if got != want or type(got) is not type(want):",
-            "    print('REPRODUCED: %s.param[%r].%s is %%r, statement gives %%r' %% (got, want))" % (at, PNAME, slot),
+            '    print("REPRODUCED: %s.param[%r].%s is %%r, statement gives %%r" %% (got, want))' % (at, PNAME, slot),
             "    sys.exit(1)", "print('NOT-REPRODUCED')"]
     elif clause == 'C11/create/missing-raise':
         lines += [
@@ -606,6 +628,13 @@ def replay_script(shape, decls, route, clause, at, witness):
         lines += [
             "if raised is not None:",
             "    print('REPRODUCED: creation raised %%s although merged default %r satisfies %s' %% type(raised).__name__)" % (m['default'], _constraints(tname, m).replace('%', '%%').replace("'", '"')),
+            "    sys.exit(1)", "print('NOT-REPRODUCED')"]
+    elif clause == 'C11/setattr-route/name-unbound':
+        lines += [
+            "p = %s.__dict__.get(%r)" % (at, PNAME),
+            "if isinstance(p, param.Parameter) and p.name != %r:" % PNAME,
+            "    print('REPRODUCED: after %s.%s = Parameter(...) the Parameter has name %%r (owner %%r): it was never '" % (at, PNAME),
+            "          'bound, so slots left unspecified are not inherited' % (p.name, p.owner))",
             "    sys.exit(1)", "print('NOT-REPRODUCED')"]
     elif clause == 'C11/invariant/failed-add-leaves-invalid-parameter':
         lines += [
@@ -667,7 +696,7 @@ DOMAINS = {
         'small': dict(default=[X, 'abc', 5], regex=[X, R2]),
     },
     'SEL': {
-        'full': dict(default=[X, 1, 3, None, [1], [2, 3]], objects=[X, [1, 2], [2, 3], {'a': 1, 'b': 2}, []],
+        'full': dict(default=[X, 1, 3, None, [1], [2, 3]], objects=[X, [1, 2], [2, 3], {'a': 1, 'b': 2}],
                      check_on_set=[X, False], allow_None=[X, True]),
         'mid': dict(default=[X, 1, 3, None, [1]], objects=[X, [1, 2], [2, 3], {'a': 1, 'b': 2}],
                     allow_None=[X, True]),
@@ -726,19 +755,39 @@ def with_peri(decl, salt):
 
 # one block = (family, shape, pool sizes per position, allow skip per position)
 def blocks(tier):
-    q = tier == 'quick'
+    q = tier != 'thorough'
     out = []
     for fam in ('NUM', 'STR', 'SEL', 'TUP'):
-        out.append((fam, 'chain2', ('full', 'full')))
-        out.append((fam, 'chain3', ('small', 'mid', 'mid') if q else ('mid', 'mid', 'full')))
-        out.append((fam, 'diamond', ('small',) * 4 if q else ('small', 'mid', 'small', 'mid')))
+        out.append((fam, 'chain2', ('mid', 'full') if q else ('full', 'full')))
+        out.append((fam, 'chain3', ('small', 'small', 'mid') if q else ('small', 'mid', 'full')))
+        out.append((fam, 'diamond', ('small',) * 4 if q else ('small', 'small', 'small', 'mid')))
         if not q:
             out.append((fam, 'chain4', ('small', 'small', 'small', 'mid')))
             out.append((fam, 'diamond_tail', ('small', 'small', 'small', 'small', 'small')))
     return out
 
 
-ROUTES = ('class', 'class', 'class', 'addp', 'class', 'setattr', 'class')
+def bound_text(tier, seed):
+    sizes = {(f, z): len(pool(f, z)) for f in DOMAINS for z in ('full', 'mid', 'small')}
+    parts = []
+    for fam, shape, szs in blocks(tier):
+        parts.append('%s/%s[%s]' % (fam, shape, 'x'.join('%s:%d' % (z, sizes[(fam, z)]) for z in szs)))
+    thorough = tier == 'thorough'
+    return ('%s: every combination of the per-class declaration pools (core attributes: full product of the '
+            'value lattices in DOMAINS, middle classes may also skip; peripheral attributes doc/label/'
+            'precedence/constant/instantiate/step hashed from (seed, path)) for the blocks %s%s%s; chain2 with %s '
+            'subsets of ALL attributes at the child x parent {specifies all, nothing} x {equal, conflicting values} '
+            'x 4 type pairs; %d seeded random hierarchies per family over chain3/chain4/diamond/diamond_tail '
+            'from the full pools; creation route of the tested class hashed over class statement / '
+            'add_parameter / setattr'
+            % (tier, ', '.join(parts),
+               '' if thorough else ' (diamond: the half of the root declarations selected by the seed)',
+               ' (diamond_tail: the third of the root declarations selected by the seed)' if thorough else '',
+               'all 2^n' if thorough else 'the size <= 2, size >= n-1 and a hashed 1/8 of the', 25000 if thorough else 3000))
+
+
+ROUTES = (('class', 'class', 'class', 'addp', 'class', 'setattr', 'class') if INCLUDE_SETATTR_ROUTE
+          else ('class', 'class', 'class', 'addp', 'class', 'addp', 'class'))
 
 
 class Result:
@@ -856,7 +905,7 @@ def subset_block(fam, tier, seed, res, part, nparts):
                 continue
             for mask in range(1 << len(attrs)):
                 sub = [a for b, a in enumerate(attrs) if mask >> b & 1]
-                if tier == 'quick' and not (len(sub) <= 2 or len(sub) >= len(attrs) - 1
+                if tier != 'thorough' and not (len(sub) <= 2 or len(sub) >= len(attrs) - 1
                                             or zlib.crc32(b'%d|%d' % (seed, mask)) % 8 == 0):
                     continue
                 for vals in (all1, all2):
@@ -939,20 +988,26 @@ def make_tasks(tier, seed):
         nroot = len(pool(fam, sizes[0]))
         per = 1 if shape != 'chain2' else 4
         for r in range(0, nroot, per):
-            tasks.append(('dfs', block, list(range(r, min(nroot, r + per))), seed))
-    nparts = 4 if tier == 'quick' else 16
+            roots = list(range(r, min(nroot, r + per)))
+            if tier != 'thorough' and shape == 'diamond':
+                roots = [x for x in roots if (x + seed) % 2 == 0]   # half of the roots, chosen by seed
+            if shape == 'diamond_tail':
+                roots = [x for x in roots if (x + seed) % 3 == 0]   # a third of the roots, chosen by seed
+            if roots:
+                tasks.append(('dfs', block, roots, seed))
+    nparts = 16 if tier == 'thorough' else 4
     for fam in ('NUM', 'STR', 'SEL', 'TUP'):
         for p in range(nparts):
             tasks.append(('subset', fam, tier, seed, p, nparts))
-    total = 6000 if tier == 'quick' else 160000
-    rparts = 8 if tier == 'quick' else 64
+    total = 25000 if tier == 'thorough' else 3000
+    rparts = 64 if tier == 'thorough' else 8
     for fam in ('NUM', 'STR', 'SEL', 'TUP'):
         for p in range(rparts):
             tasks.append(('random', fam, tier, seed, p, rparts, total))
     return tasks
 
 
-def run(tier, seed):
+def _run(tier, seed):
     _P()
     B = Bounded(
         'C11',
@@ -966,14 +1021,11 @@ def run(tier, seed):
              'valid(merged).  Distinct = distinct (shape, route, declarations); non-trivial = the tested '
              'class declares and some class of its MRO declares too.  Declarations that are not '
              'individually constructible are out of scope.',
-        bound=('quick' if tier == 'quick' else 'thorough') +
-              ': exhaustive core products (chain2 full^2; chain3 / diamond / chain4 / diamond_tail over '
-              'the mid/small pools, see blocks()) with hashed peripheral attributes; chain2 with subsets '
-              'of all attributes at the child (%s) x parent {all, none} x {equal, conflicting} x 4 type '
-              'pairs; seeded random sample of the full product over all shapes' %
-              ('sizes <=2, >=n-1 and 1/8 sample' if tier == 'quick' else 'all 2^n subsets'))
+        bound=bound_text(tier, seed))
     B.exhaustive = False
     tasks = make_tasks(tier, seed)
+    if tier == 'smoke':            # development aid (mutation checks): a fifth of the quick tasks
+        tasks = tasks[::5]
     # big tasks first for balance
     order = sorted(range(len(tasks)), key=lambda i: (0 if tasks[i][0] == 'dfs' else 1, i))
     ctx = mp.get_context('fork')
@@ -1002,8 +1054,10 @@ def run(tier, seed):
         if clause == 'C11/harness/error':
             B.violation(clause, case_key(shape, decls, route), detail)
             continue
-        budget[clause] = budget.get(clause, 0) + 1
-        if budget[clause] > 40:
+        fam = next(FAMILY_OF[d[0]] for d in decls if d is not None)
+        pre = (clause, fam, route)
+        budget[pre] = budget.get(pre, 0) + 1
+        if budget[pre] > 3:
             continue
         try:
             s2, d2, r2, at = shrink(shape, decls, route, clause)
@@ -1011,14 +1065,26 @@ def run(tier, seed):
             B.note('shrink failed for %s %s: %r' % (clause, case_key(shape, decls, route), e))
             continue
         w = witness_text(s2, d2, r2, clause, at)
-        if (clause, w) in seen:
-            seen[(clause, w)]['count'] += 1
+        wk = witness_class(clause, s2, d2, r2)
+        if (clause, wk) in seen:
+            seen[(clause, wk)]['count'] += 1
             continue
         det = next((d for cl, a, d in run_case(s2, d2, r2) if cl == clause), detail)
         B.violation(clause, w, det, replay_script(s2, d2, r2, clause, at, w))
-        seen[(clause, w)] = B.violations[-1]
+        seen[(clause, wk)] = B.violations[-1]
     for c, n in sorted(failcount.items()):
         B.note('failing class checks for %s: %d (minimised to the witnesses above)' % (c, n))
     res = B.result()
     res['distinct_nontrivial'] += extra_distinct
     return res
+
+
+def run(tier, seed):
+    """Entry point of the layer (tiers: quick, thorough; 'smoke' is a development aid used for the
+    mutation checks).  Warning filters and param's logger level are restored afterwards."""
+    saved = (warnings.filters[:], logging.getLogger('param').level)
+    try:
+        return _run(tier, seed)
+    finally:
+        warnings.filters[:] = saved[0]
+        logging.getLogger('param').setLevel(saved[1])
